@@ -244,6 +244,11 @@ def run_case(scn, ctx):
         res = w.verify(third)
         require(res.exc is None and res.exit_code == 0, "relocated-verify", "copy of the sealed tree at %r: %s\n%s" % (third, res.brief(), res.output[-300:]), res)
         feats.add("relocated_verify")
+        # ... however the copy's root is typed: from inside it as ".", from its parent as "./name"
+        for a0, cwd in ((".", w.abs(third)), ("./" + os.path.basename(w.abs(third)), os.path.dirname(w.abs(third)))):
+            for cmd in ("verify", "diff"):
+                res = w.run(cmd, [a0], cwd=cwd)
+                require(res.exc is None and res.exit_code == 0, "relocated-verify", "%s %s on the copy at %r (cwd %r): %s\n%s" % (cmd, a0, third, w.rel(cwd), res.brief(), res.output[-300:]), res)
         # ... also file by file, each named relative to the copy's root, while the working directory is the original tree
         # (where a file of the same relative name exists, too)
         import fnmatch as _fn
